@@ -7,6 +7,8 @@ import ExponaxModel.Proofs.ExactLinearIndex
 import ExponaxModel.Proofs.SpectralLayoutEq
 import ExponaxModel.Proofs.SpectralOpsEq
 import ExponaxModel.Proofs.SmallGapsCoef
+import ExponaxModel.Proofs.SmallGaps2XY
+import ExponaxModel.Proofs.SmallGaps2Nyquist
 /-
 C04 — grid, FFT and Fourier-coefficient conventions are mutually consistent.
 Index / layout part (all `N`, no bound).  The DFT part (round trip, single-mode
@@ -299,6 +301,101 @@ theorem C04_coefficient_extraction_oblique_factor :
             some out ∧
           Nonlin.at2 out 0 6 = 2 * (↑a * Complex.exp (↑φ * Complex.I)) :=
   @Exponax.SmallGaps.coef_extraction_oblique_2d
+
+
+
+/-! ### indexing = "xy" for every D ≥ 2 (wavenumbers and grid swap their first two components, scaling arrays do not depend on the
+indexing, the single-mode read-off holds on the xy grid with the xy wavenumber array), and the n-D read-off AT Nyquist
+wavenumbers (stored representative `canonK`, self-conjugate modes carry a·cos φ) -/
+
+open Exponax.SmallGaps2 in
+theorem C04_xy_wavenumbers :
+    ∀ (D N : ℕ),
+      2 ≤ D →
+        0 < N →
+          ∀ (h : List ℕ),
+            Gen.SpectralLayout.build_wavenumbers D N "xy" h = swap01 (Gen.SpectralLayout.build_wavenumbers D N "ij" h) ∧
+              Gen.SpectralLayout.build_wavenumbers D N "xy" h = swap01 (Layout.wnVec D N h) ∧
+                Gen.SpectralLayout.build_wavenumbers_shape D N "xy" = Gen.SpectralLayout.build_wavenumbers_shape D N "ij" :=
+  @Exponax.SmallGaps2.build_wavenumbers_xy_swap
+
+open Exponax.SmallGaps2 in
+theorem C04_xy_grid :
+    ∀ {K : Type} [inst : Field K] (D N : ℕ),
+      2 ≤ D →
+        ∀ (L : K) (full zc : Bool) (idx : List ℕ),
+          Gen.SpectralLayout.make_grid D L N full zc "xy" idx =
+              swap01 (Gen.SpectralLayout.make_grid D L N full zc "ij" idx) ∧
+            Gen.SpectralLayout.make_grid D L N full zc "xy" idx =
+                Gen.SpectralLayout.make_grid D L N full zc "ij" (swapIdx idx) ∧
+              Gen.SpectralLayout.make_grid D L N full zc "xy" idx =
+                List.map (fun d ↦ Layout.gridCoord L N zc (idx.getD (sw d) 0)) (List.range D) :=
+  @Exponax.SmallGaps2.make_grid_xy_swap
+
+open Exponax.SmallGaps2 in
+theorem C04_xy_scaling_arrays :
+    ∀ (D N : ℕ),
+      1 ≤ D →
+        0 < N →
+          ∀ (mode : String) (h : List ℕ),
+            Gen.SpectralLayout.build_scaling_array D N mode "xy" h = Gen.SpectralLayout.build_scaling_array D N mode "ij" h :=
+  @Exponax.SmallGaps2.build_scaling_array_xy
+
+open Exponax.SmallGaps2 in
+theorem C04_single_mode_xy :
+    ∀ (D N : ℕ),
+      2 ≤ D →
+        0 < N →
+          ∀ (L : ℝ),
+            L ≠ 0 →
+              ∀ (κ : List ℤ),
+                ExactLinear.BelowNyquist D N κ →
+                  ∀ (a φ : ℝ),
+                    ∀ h < Layout.numModes D N,
+                      (Transform.rfftnM D N (sampledOnGrid D N L "xy" κ a φ)).getD h 0 =
+                        (if
+                              Gen.SpectralLayout.build_wavenumbers D N "xy"
+                                  (Layout.unflatten (Layout.wavenumberShape D N) h) =
+                                κ then
+                            ↑a / 2 * ↑(N ^ D) * Complex.exp (↑φ * Complex.I)
+                          else 0) +
+                          if
+                              Gen.SpectralLayout.build_wavenumbers D N "xy"
+                                  (Layout.unflatten (Layout.wavenumberShape D N) h) =
+                                ExactLinear.negK κ then
+                            ↑a / 2 * ↑(N ^ D) * Complex.exp (-(↑φ * Complex.I))
+                          else 0 :=
+  @Exponax.SmallGaps2.single_mode_xy
+
+open Exponax.SmallGaps2 in
+theorem C04_single_mode_nyquist_nd :
+    ∀ (D N : ℕ),
+      0 < D →
+        0 < N →
+          ∀ (κ : List ℤ),
+            AtMostNyquist D N κ →
+              ∀ (a φ : ℝ),
+                ∀ h < Layout.numModes D N,
+                  (Transform.rfftnM D N (ExactLinear.modeField D N κ a φ)).getD h 0 =
+                    (if Layout.wnFlat D N h = canonK D N κ then ↑a / 2 * ↑(N ^ D) * Complex.exp (↑φ * Complex.I) else 0) +
+                      if Layout.wnFlat D N h = canonK D N (ExactLinear.negK κ) then
+                        ↑a / 2 * ↑(N ^ D) * Complex.exp (-(↑φ * Complex.I))
+                      else 0 :=
+  @Exponax.SmallGaps2.rfftnM_modeField_nyquist
+
+open Exponax.SmallGaps2 in
+theorem C04_single_mode_self_conjugate_nd :
+    ∀ (D N : ℕ),
+      0 < D →
+        0 < N →
+          ∀ (κ : List ℤ),
+            AtMostNyquist D N κ →
+              SelfConj D N κ →
+                ∀ (a φ : ℝ),
+                  ∀ h < Layout.numModes D N,
+                    (Transform.rfftnM D N (ExactLinear.modeField D N κ a φ)).getD h 0 =
+                      if Layout.wnFlat D N h = canonK D N κ then ↑(a * Real.cos φ * ↑(N ^ D)) else 0 :=
+  @Exponax.SmallGaps2.rfftnM_modeField_selfconj
 
 
 end Exponax
